@@ -871,6 +871,8 @@ pub fn run(suite: &str, thorough: bool, seed: u64, shard: usize, nshards: usize,
             alphabet.push(HOp::AddFile("sub/../f_ok.aidl".to_owned(), Some(contents[0].as_bytes().to_vec())));
             alphabet.push(HOp::AddFile("f_missing.aidl".to_owned(), None));
             alphabet.push(HOp::AddFile("f_bad.aidl".to_owned(), Some(vec![0x70, 0xff, 0xfe, 0x20])));
+            // a file that starts with a byte-order mark is read as it is (the mark is not white space for the lexer)
+            alphabet.push(HOp::AddFile("f_bom.aidl".to_owned(), Some(format!("{}{}", '\u{FEFF}', contents[0]).into_bytes())));
             let a = alphabet.len();
             let maxlen = if thorough { 4 } else { 3 };
             let mut idx = 0usize;
@@ -1108,7 +1110,7 @@ pub fn run(suite: &str, thorough: bool, seed: u64, shard: usize, nshards: usize,
         // end of input, and recovered errors inside mutated documents
         "expected" => {
             let n = share(if thorough { 3000 } else { 60 });
-            let bad = [";", "}", ")", "{", "interface", "foo", "123", "@A", "=", ",", "<", ">", "class", "in", "void", "\"s\"", "1.5", ".", "oneway", "List", "[", "true"];
+            let bad = [";", "}", ")", "{", "interface", "foo", "123", "@A", "=", ",", "<", ">", "class", "in", "void", "\"s\"", "1.5", ".", "oneway", "List", "[", "true", "\"🎉🎉🎉🎉🎉🎉🎉🎉🎉🎉🎉🎉🎉🎉🎉🎉🎉🎉🎉🎉🎉🎉🎉🎉🎉🎉🎉🎉🎉🎉🎉🎉🎉\"", "a_very_long_identifier_that_goes_on_and_on_and_on_for_more_than_one_hundred_bytes_to_cross_any_small_fixed_buffer_size"];
             for _ in 0..n {
                 let sd = rng.next();
                 let mut r = Rng::new(sd);
@@ -1177,7 +1179,7 @@ pub fn run(suite: &str, thorough: bool, seed: u64, shard: usize, nshards: usize,
         // must be the ones the model derives from the regenerated tables (what the parser can accept at that point)
         "expectedparse" => {
             let n = share(if thorough { 600 } else { 40 });
-            let bad = [";", "}", ")", "{", "interface", "foo", "123", "@A", "=", ",", "<", ">", "class", "in", "void", "\"s\"", "1.5", ".", "oneway", "List", "[", "true"];
+            let bad = [";", "}", ")", "{", "interface", "foo", "123", "@A", "=", ",", "<", ">", "class", "in", "void", "\"s\"", "1.5", ".", "oneway", "List", "[", "true", "\"🎉🎉🎉🎉🎉🎉🎉🎉🎉🎉🎉🎉🎉🎉🎉🎉🎉🎉🎉🎉🎉🎉🎉🎉🎉🎉🎉🎉🎉🎉🎉🎉🎉\"", "a_very_long_identifier_that_goes_on_and_on_and_on_for_more_than_one_hundred_bytes_to_cross_any_small_fixed_buffer_size"];
             let kinds = ["FLOAT", "INTEGER", "INTERFACE", "PACKAGE", "ONEWAY", "ENUM", "PARCELABLE", "IMPORT", "IDENT", "VOID", "PRIMITIVE", "DIRECTION", "ANNOTATION", "CONST", "STRING"];
             for _ in 0..n {
                 let sd = rng.next();
@@ -1219,6 +1221,16 @@ pub fn run(suite: &str, thorough: bool, seed: u64, shard: usize, nshards: usize,
         }
         // parse-level correspondence: generated documents in all layouts
         "parse" => {
+            // degenerate documents: nothing, white space, comments only, a byte-order mark, a document that ends
+            // right after its package, an item with an empty body
+            if shard == 0 {
+                for (k, t) in ["", " ", "\n", " \n\t\r\n", "// x\n", "//", "/* x */", "/** d */", "/**/", "\u{FEFF}", "\u{FEFF}package a;\ninterface I {}\n",
+                    "package a;", "package a;\n// only\n", "package a; interface I {}", "package a; parcelable P {}", "package a; enum E {}", "package a; enum E { }",
+                    "\u{3000}", "\u{85}\u{2028}"].iter().enumerate()
+                {
+                    em.case(900000 + k as u64, parse_case(&vec![("f".to_owned(), (*t).to_owned())], vec![]));
+                }
+            }
             let n = share(if thorough { 20000 } else { 300 });
             for i in 0..n {
                 let s = rng.next();
